@@ -292,14 +292,33 @@ WIDE g_h; size_t g_i;       /* ghost Horner fold over the consumed digits, own i
 #define NUMERAL_OK(in) ( CONSUMED(in) >= 1 && (g_k < CONSUMED(in) ==> ISDIG(P0[g_k])) \\
    && (CONSUMED(in) < AVAIL_OLD(in) ==> !ISDIG(P0[CONSUMED(in)])) && (P0[0] == '0' ==> CONSUMED(in) == 1) )
 #define NUMERAL_NONE(in) ( AVAIL_OLD(in) == 0 || !ISDIG(P0[0]) || (P0[0] == '0' && AVAIL_OLD(in) >= 2 && ISDIG(P0[1])) )
+#define POS_DIGITS(in) (BYTE(in) == OLD(BYTE(in)) + CONSUMED(in) && LINE(in) == OLD(LINE(in)) && COL(in) == OLD(COL(in)) + CONSUMED(in))
 '''
 
 
 def scan_pos(tr):
     if tr != 'eager':
         return None
-    return E('(RET && !vf_exc.pending) ==> (BYTE(in) == OLD(BYTE(in)) + CONSUMED(in) && LINE(in) == OLD(LINE(in)) && COL(in) == OLD(COL(in)) + CONSUMED(in))',
-             'RC-POS-DIGITS', ('C06',))
+    return E('(RET && !vf_exc.pending) ==> POS_DIGITS(in)', 'RC-POS-DIGITS', ('C06',))
+
+
+# native (replay) bindings of the scan macros: the probe clause is evaluated for every index
+def native_scan_defs(tr, mx='0'):
+    d = '''
+typedef unsigned __int128 WIDE;
+#define ISDIG(c) ((c) >= '0' && (c) <= '9')
+#define P0 ((const char*)p)
+static bool numeral_ok() { if (consumed < 1) return false; for (size_t k = 0; k < consumed; ++k) if (!ISDIG(P0[k])) return false;
+   if (consumed < avail && ISDIG(P0[consumed])) return false; if (P0[0] == '0' && consumed != 1) return false; return true; }
+#define NUMERAL_OK(in) numeral_ok()
+#define NUMERAL_NONE(in) ( avail == 0 || !ISDIG(P0[0]) || (P0[0] == '0' && avail >= 2 && ISDIG(P0[1])) )
+static bool overflow_in_run(WIDE mx) { if (avail == 0 || P0[0] == '0') return false; WIDE h = 0;
+   for (size_t i = 0; i < avail && ISDIG(P0[i]); ++i) { if (h * 10 + (WIDE)(P0[i] - '0') > mx) return true; h = h * 10 + (WIDE)(P0[i] - '0'); } return false; }
+#define OVERFLOW_AT_GI(mx) overflow_in_run((WIDE)(mx))
+'''
+    if tr == 'eager':
+        d += '#define POS_DIGITS(in) (byte1 == byte0 + consumed && line1 == line0 && col1 == col0 + consumed)\n'
+    return d
 
 
 def scan_loop_inv(tr, extra=''):
@@ -350,12 +369,14 @@ def scan_harness(tr, call, extra_decl=''):
 def scan_jobs(tier):
     out = []
     for name, tr, expr, extra in SCAN_ROOTS:
+        if not name.startswith(('mu_', 'urule_')):
+            continue
         con = match_unsigned_contract(tr)
         j = Job(name, NAME, name, con, ('C15', 'C02', 'C03', 'C06', 'C11'), prelude=prelude(tr) + SCAN_PRE,
                 harness=scan_harness(tr, 'w_ret = $ENTRY(&in)'),
                 loops={(r'internal::match_unsigned<', 1): '__CPROVER_assigns(IT_FIELDS(in))\n__CPROVER_loop_invariant(%s)' % scan_loop_inv(tr)},
                 expect_fail_canary=canaries(),
-                replay={'kind': 'leaf', 'tracking': tr, 'eol': 'lf_crlf', 'defs': ''},
+                replay={'kind': 'leaf', 'tracking': tr, 'eol': 'lf_crlf', 'defs': '', 'defs_after': native_scan_defs(tr)},
                 desc='%s on memory_input<%s>: numeral syntax 0|[1-9][0-9]*, peek-before-bump, bounds, positions' % (expr, tr))
         out.append(j)
     return out
@@ -366,3 +387,113 @@ _jobs_base = jobs
 
 def jobs(tier):
     return _jobs_base(tier) + scan_jobs(tier)
+
+
+# ---------------------------------------------------------------- match_and_convert_*
+MC = [  # (key, C++ unsigned type, C type, Maximum literal C++, Maximum literal C)
+    ('u8', 'std::uint8_t', 'unsigned char', '255', '255'),
+    ('u16', 'std::uint16_t', 'unsigned short', '65535', '65535'),
+    ('u64', 'std::uint64_t', 'unsigned long', '18446744073709551615ULL', '18446744073709551615UL'),
+    ('u32m', 'std::uint32_t', 'unsigned int', '1000000', '1000000U'),
+]
+for tr, sfx in (('eager', 'e'), ('lazy', 'l')):
+    for k, t, ct, mcxx, mc in MC:
+        it = INPUT_TYPES[(tr, 'lf_crlf')]
+        SCAN_ROOTS.append(('mcn_%s_%s' % (k, sfx), tr,
+                           'internal::match_and_convert_unsigned_with_maximum_nothrow< %s, %s, %s >( in, st )' % (it, t, mcxx), ', %s& st' % t))
+        SCAN_ROOTS.append(('mct_%s_%s' % (k, sfx), tr,
+                           'internal::match_and_convert_unsigned_with_maximum_throws< %s, %s, %s >( in, st )' % (it, t, mcxx), ', %s& st' % t))
+        SCAN_ROOTS.append(('maxrule_%s_%s' % (k, sfx), tr, 'maximum_rule< %s, %s >::match( in )' % (t, mcxx), ''))
+
+MC_PRE = '''
+#define OVERFLOW_AT_GI(mx) ( P0[0] != '0' && ISDIG(P0[g_i]) && g_i < AVAIL_OLD(in) && (g_k < g_i ==> ISDIG(P0[g_k])) \\
+   && g_h * 10 + (WIDE)(P0[g_i] - '0') > (WIDE)(mx) )
+'''
+
+
+def mc_contract(tr, kind, ct, mx, with_st):
+    ex = []
+    nx = '!vf_exc.pending && '
+    ex.append(E('(%sRET) ==> NUMERAL_OK(in)' % nx, 'INT-SYNTAX-ACCEPT', ('C15',)))
+    if kind == 'nothrow':
+        ex.append(E('(%s!RET) ==> (NUMERAL_NONE(in) || OVERFLOW_AT_GI(%s))' % (nx, mx), 'INT-REJECT-OR-OVERFLOW', ('C15',)))
+        ex.append(E('vf_exc.pending == 0', 'INT-NOTHROW', ('C15', 'C20')))
+    else:
+        ex.append(E('(%s!RET) ==> NUMERAL_NONE(in)' % nx, 'INT-SYNTAX-REJECT', ('C15',)))
+        ex.append(E('vf_exc.pending ==> (OVERFLOW_AT_GI(%s) && CONSUMED(in) == g_i)' % mx, 'INT-OVERFLOW-EXCEPTION-ONLY-WHEN-TOO-BIG', ('C15', 'C05')))
+    if with_st:
+        ex.append(E("(%sRET) ==> (P0[0] == '0' ? *st == 0 : ((WIDE)*st == g_h && g_i == CONSUMED(in) && g_h <= (WIDE)%s))" % (nx, mx),
+                    'INT-VALUE-EXACT', ('C15',)))
+    ex.append(scan_pos(tr))
+    c = Contract(
+        R('VALID_PRE(in)'),
+        R('g_p0 == CUR(in) && vf_exc.pending == 0 && g_h == 0 && g_i == 0', 'scan-ghost-pre'),
+    )
+    if with_st:
+        c.add(R('__CPROVER_w_ok(st, sizeof(%s)) && *st == 0' % ct, 'st-pre'))
+        c.add(A('IT_FIELDS(in), *st, g_h, g_i, vf_exc, vf_exc_counter'))
+    else:
+        c.add(A('IT_FIELDS(in), g_h, g_i, vf_exc, vf_exc_counter'))
+    c.add(E('VALID_POST(in)', 'RC-VALID', ('C02', 'C03')))
+    c.add(E('MONO(in)', 'RC-MONO', ('C02',)))
+    c.add(E('(!vf_exc.pending && !RET) ==> ITER_UNCHANGED(in)', 'RC-REWIND', ('C02',)))
+    c.add(E('(!vf_exc.pending && RET) ==> PROGRESS(in)', 'RC-PROGRESS', ('C11',)))
+    for x in ex:
+        c.add(x)
+    c.add(E('!RET || vf_canary', 'canary_ok'))
+    c.add(E('RET || vf_canary', 'canary_fail'))
+    return c
+
+
+def mc_loops(tr, kind, mx):
+    base = ('PTRS_OK(in) && IN_END(in) == __CPROVER_loop_entry(IN_END(in)) && IN_BEGIN(in) == __CPROVER_loop_entry(IN_BEGIN(in))'
+            ' && __CPROVER_same_object(CUR(in), g_p0) && vf_exc.pending == 0'
+            ' && g_i < g_n - OFF(g_p0) && ISDIG(c) && c == g_p0[g_i] && g_p0[0] != \'0\''
+            ' && (g_k < g_i ==> ISDIG(g_p0[g_k])) && (WIDE)*st == g_h && g_h <= (WIDE)%s' % mx)
+    if kind == 'nothrow':
+        inv = base + ' && b == g_i && CUR(in) == __CPROVER_loop_entry(CUR(in)) && OFF(CUR(in)) == OFF(g_p0)'
+        if tr == 'eager':
+            inv += ' && BYTE(in) == __CPROVER_loop_entry(BYTE(in)) && LINE(in) == __CPROVER_loop_entry(LINE(in)) && COL(in) == __CPROVER_loop_entry(COL(in))'
+        return '__CPROVER_assigns(c, b, *st, g_h, g_i)\n__CPROVER_loop_invariant(%s)' % inv
+    inv = base + ' && OFF(CUR(in)) == OFF(g_p0) + g_i'
+    if tr == 'eager':
+        inv += (' && BYTE(in) == __CPROVER_loop_entry(BYTE(in)) + g_i && LINE(in) == __CPROVER_loop_entry(LINE(in))'
+                ' && COL(in) == __CPROVER_loop_entry(COL(in)) + g_i')
+    return '__CPROVER_assigns(c, IT_FIELDS(in), *st, g_h, g_i, vf_exc, vf_exc_counter)\n__CPROVER_loop_invariant(%s)' % inv
+
+
+MC_GHOST = "{ g_h = g_h * 10 + (WIDE)(g_p0[g_i] - '0'); g_i = g_i + 1; }"
+
+
+def mc_jobs(tier):
+    out = []
+    for name, tr, expr, extra in SCAN_ROOTS:
+        if not name.startswith(('mcn_', 'mct_', 'maxrule_')):
+            continue
+        k = name.split('_')[1]
+        _, t, ct, mcxx, mc = [m for m in MC if m[0] == k][0]
+        if tier != 'thorough' and tr == 'lazy' and k not in ('u8',):
+            continue
+        kind = 'throws' if name.startswith('mct_') else 'nothrow'
+        with_st = not name.startswith('maxrule_')
+        con = mc_contract(tr, kind, ct, mc, with_st)
+        fnpat = r'internal::match_and_convert_unsigned_with_maximum_%s<' % kind
+        extra_decl = ('  %s st = 0;\n' % ct) if with_st else ''
+        call = 'w_ret = $ENTRY(&in, &st)' if with_st else 'w_ret = $ENTRY(&in)'
+        j = Job(name, NAME, name, con, ('C15', 'C02', 'C03', 'C06', 'C11'), prelude=prelude(tr) + SCAN_PRE + MC_PRE,
+                harness=scan_harness(tr, call, extra_decl=extra_decl),
+                stubs=[(r'internal::accumulate_digit<', lambda fi: accd_contract(*max_of_accd(fi), canary=False))],
+                loops={(fnpat, 1): mc_loops(tr, kind, mc)},
+                expect_fail_canary=canaries(),
+                replay=({'kind': 'leaf', 'tracking': tr, 'eol': 'lf_crlf', 'defs': '', 'defs_after': native_scan_defs(tr)} if not with_st else None),
+                desc='%s on memory_input<%s>' % (expr, tr))
+        j.ghost = {(fnpat, 1): MC_GHOST}
+        out.append(j)
+    return out
+
+
+_jobs_base2 = jobs
+
+
+def jobs(tier):
+    return _jobs_base2(tier) + mc_jobs(tier)
